@@ -679,9 +679,58 @@ pub fn sizes() -> String {
     )
 }
 
+// the two public RingCT decoders that take the counts from the caller
+fn rct_direct(op: &str, args: &[&str]) -> Option<String> {
+    let mut args = args;
+    if let Some(a) = args.first() {
+        if a.starts_with('@') {
+            if *a != sizes() {
+                return Some("SIZES-MISMATCH".into());
+            }
+            args = &args[1..];
+        }
+    }
+    // counts beyond usize cannot be passed to the Rust function at all
+    let num = |s: &str| -> Option<usize> { s.parse::<u64>().ok().map(|n| n as usize) };
+    match (op, args) {
+        ("dec_rctbase", [i, o, h]) => {
+            let b = unhex(h)?;
+            let mut cur = std::io::Cursor::new(&b[..]);
+            Some(match RctSigBase::consensus_decode(&mut cur, num(i)?, num(o)?) {
+                Ok(Some(x)) => format!(
+                    "OK {} {} {}",
+                    cur.position(),
+                    show_hex(&monero::consensus::encode::serialize(&x)),
+                    show(&x)
+                ),
+                Ok(None) => "OK-NONE".into(),
+                Err(_) => "ERR".into(),
+            })
+        }
+        ("dec_rctprunable", [t, i, o, m, h]) => {
+            let b = unhex(h)?;
+            let ty = rct_of(t.parse().ok()?)?;
+            let mut cur = std::io::Cursor::new(&b[..]);
+            Some(match RctSigPrunable::consensus_decode(&mut cur, ty, num(i)?, num(o)?, num(m)?) {
+                Ok(Some(x)) => {
+                    let mut buf = Vec::new();
+                    x.consensus_encode(&mut buf, ty).unwrap();
+                    format!("OK {} {} {}", cur.position(), show_hex(&buf), show(&x))
+                }
+                Ok(None) => "OK 0 - none".into(),
+                Err(_) => "ERR".into(),
+            })
+        }
+        _ => None,
+    }
+}
+
 pub fn run(op: &str, args: &[&str]) -> Option<String> {
     if op == "sizes" {
         return Some(format!("OK {}", sizes()));
+    }
+    if op == "dec_rctbase" || op == "dec_rctprunable" {
+        return rct_direct(op, args);
     }
     if !matches!(op, "dec" | "decs" | "enc" | "rt" | "reser") {
         return None;
